@@ -19,7 +19,7 @@
 From CB Require Import Pipe PipeCorrect.
 From CB Require Import ProofLib Spec Chain Programs Inv_for_each.
 From CB Require Import Chain Programs Tree TreePrograms TreeFunctional Order_nary Inv_for_each.
-From CB Require Import Flow Wire2 Liveness PipeNet LivenessNexts.
+From CB Require Import Flow Wire2 LivenessG PipeNetG LivenessNexts.
 From CB Require Inv_from_iter.
 From Coq Require Import List Arith.
 Import ListNotations.
@@ -35,7 +35,7 @@ Proof. exact run_pipe_correct_explicit. Qed.
 Print Assumptions C06_run_pipe_correct.
 
 Theorem C06_take_stops_unbounded_input : forall p1 n p2 xs base k demands fuel,
-  forallb oneshot p1 = true -> n <= length xs + k ->
+  forallb PipeCorrect.oneshot p1 = true -> n <= length xs + k ->
   let p := p1 ++ StTake n :: p2 in
   let xs' := xs ++ seq base k in
   S (length (sem p xs')) <= demands -> fuel_bound p xs' <= fuel ->
@@ -141,46 +141,84 @@ Theorem C06_wire_faithful (sigs : list (op * mparams * (mstate -> input -> bool)
 Proof. exact (@chain_wire2 sigs Hsafe Hreg ns N). Qed.
 Print Assumptions C06_wire_faithful.
 
-(** once for_each is applied the net comes to rest by itself, after at most [steps_max] transfers;
-    [crun] = the states after that one environment move and internal transfers only *)
-Theorem C06_pipeline_terminates (xs : list val) (stages : list ustage) :
+(** once for_each is applied the net comes to rest by itself, after at most [steps_max stages B] transfers,
+    given a bound B on what from_iter delivers; [crun] = the states after that one environment move and
+    internal transfers only *)
+Theorem C06_pipeline_terminates (it : nat -> option val) (stages : list ustage) :
   Forall ustage_ok stages ->
-  exists m, m <= steps_max xs stages /\ crun xs stages (taus m (net_step (NP xs stages) (kick stages))) /\
-            pend (taus m (net_step (NP xs stages) (kick stages))) = PIdle.
-Proof. exact (@terminates xs stages). Qed.
+  forall B, (forall N, crun it stages N -> forall n0, nth_error (nodes N) 0 = Some n0 -> dout (ntrace n0) <= B) ->
+  exists m, m <= steps_max stages B /\ crun it stages (taus m (net_step (NP it stages) (kick stages))) /\
+            pend (taus m (net_step (NP it stages) (kick stages))) = PIdle.
+Proof. exact (@terminates it stages). Qed.
 Print Assumptions C06_pipeline_terminates.
 
-(** ... and whenever such a run is at rest, for_each has received the end of the stream *)
-Theorem C06_rest_means_done (xs : list val) (stages : list ustage) :
+(** the pipeline keeps the discipline "one Pull per message received" towards every one of its nodes:
+    each node of such a run is reachable in the environment whose sink pulls only when it has credit *)
+Theorem C06_all_one_pull (it : nat -> option val) (stages : list ustage) :
   Forall ustage_ok stages ->
-  forall N, crun xs stages N -> pend N = PIdle ->
-  forall nl, nth_error (nodes N) (Liveness.last stages) = Some nl -> us (nms nl) 0 = UEnded.
-Proof. exact (@rest_done xs stages). Qed.
+  forall N, crun it stages N -> forall i n, nth_error (nodes N) i = Some n -> nreach1 n.
+Proof. exact (@all_one_pull it stages). Qed.
+Print Assumptions C06_all_one_pull.
+
+(** ... and whenever such a run is at rest - whatever the iterator - for_each has received the end of
+    the stream and f has been called on the list function of what from_iter delivered *)
+Theorem C06_rest_means_done (it : nat -> option val) (stages : list ustage) :
+  Forall ustage_ok stages ->
+  forall N, crun it stages N -> pend N = PIdle ->
+  forall nf n0, nth_error (nodes N) (LivenessG.last stages) = Some nf -> nth_error (nodes N) 0 = Some n0 ->
+    us (nms nf) 0 = UEnded /\ user_calls (ntrace nf) = usem stages (data_out 0 (ntrace n0)).
+Proof. exact (@rest_value it stages). Qed.
 Print Assumptions C06_rest_means_done.
 
-(** the whole of C06 for these pipelines: the run is finite, ends with for_each having seen the end,
-    and f has been called on exactly the list function of the whole input, in order *)
-Theorem C06_pipeline_completes (xs : list val) (stages : list ustage) :
+(** the whole of C06 for these pipelines over a finite input: the run is finite, ends with for_each
+    having seen the end, and f has been called on exactly the list function of the whole input, in order *)
+Theorem C06_pipeline_completes (it : nat -> option val) (stages : list ustage) :
   Forall ustage_ok stages ->
-  exists m N, m <= steps_max xs stages /\ N = taus m (net_step (NP xs stages) (kick stages)) /\
-    net_reach (NP xs stages) N /\ pend N = PIdle /\ gst N = [] /\
-    exists nf, nth_error (nodes N) (Liveness.last stages) = Some nf /\
+  forall xs, (forall k, it k = nth_error xs k) ->
+  exists m N, m <= steps_max stages (length xs) /\ N = taus m (net_step (NP it stages) (kick stages)) /\
+    net_reach (NP it stages) N /\ pend N = PIdle /\ gst N = [] /\
+    exists nf, nth_error (nodes N) (LivenessG.last stages) = Some nf /\
       us (nms nf) 0 = UEnded /\ user_calls (ntrace nf) = usem stages xs.
-Proof. exact (@pipeline_completes xs stages). Qed.
+Proof. exact (@pipeline_completes it stages). Qed.
 Print Assumptions C06_pipeline_completes.
+
+(** "... so take over an unbounded iterator stops": ANY iterator, a take after stages that pass every
+    datum on (map, scan): the run is finite with a bound that depends on the take's count only, next()
+    is called at most n times, for_each has seen the end, f was called on the list function of what
+    was consumed *)
+Theorem C06_take_stops (it : nat -> option val) (stages : list ustage) :
+  Forall ustage_ok stages ->
+  forall pre post n, stages = pre ++ UTake n :: post -> Forall LivenessG.oneshot pre ->
+  exists m N, m <= steps_max stages n /\ N = taus m (net_step (NP it stages) (kick stages)) /\
+    net_reach (NP it stages) N /\ pend N = PIdle /\
+    exists nf n0, nth_error (nodes N) (LivenessG.last stages) = Some nf /\ nth_error (nodes N) 0 = Some n0 /\
+      us (nms nf) 0 = UEnded /\
+      user_calls (ntrace nf) = usem stages (data_out 0 (ntrace n0)) /\
+      length (Inv_from_iter.nexts (ntrace n0)) <= n.
+Proof. exact (@take_stops it stages). Qed.
+Print Assumptions C06_take_stops.
 
 (** the same for the first-order stage descriptions the harness builds on the real crate: the
     extracted runner the correspondence check executes returns the list function, completion, rest *)
 Theorem C06_net_pipe_run_correct p xs us :
   ustages_of p = Some us ->
   Forall (fun s => match s with StTake n => 1 <= n | _ => True end) p ->
-  exists nx, net_pipe_run p xs = Some (sem p xs, nx, true, true).
+  exists nx, net_pipe_run p xs None (length xs) = Some (sem p xs, nx, true, true).
 Proof. exact (@net_pipe_run_correct p xs us). Qed.
 Print Assumptions C06_net_pipe_run_correct.
 
+Theorem C06_net_pipe_run_take_stops p1 n p2 xs inf us :
+  ustages_of (p1 ++ StTake n :: p2) = Some us ->
+  Forall (fun s => match s with StTake k => 1 <= k | _ => True end) (p1 ++ StTake n :: p2) ->
+  Forall (fun s => match s with StMap _ _ | StScan _ _ => True | _ => False end) p1 ->
+  exists calls nx, net_pipe_run (p1 ++ StTake n :: p2) xs inf n = Some (calls, nx, true, true) /\ nx <= n.
+Proof. exact (@net_pipe_run_take_stops p1 n p2 xs inf us). Qed.
+Print Assumptions C06_net_pipe_run_take_stops.
+
 Theorem C06_net_pipe_run_example :
-  net_pipe_run [StMap 1 1; StFilter 2 0; StTake 2] [1; 2; 3; 4; 5] = Some ([2; 4], 3, true, true).
-Proof. exact net_pipe_run_example. Qed.
+  net_pipe_run [StMap 1 1; StFilter 2 0; StTake 2] [1; 2; 3; 4; 5] None 5 = Some ([2; 4], 3, true, true) /\
+  net_pipe_run [StMap 2 1; StTake 3] [] (Some 0) 3 = Some ([1; 3; 5], 3, true, true).
+Proof. exact (conj net_pipe_run_example net_pipe_run_unbounded_example). Qed.
 Print Assumptions C06_net_pipe_run_example.
 
 (** "The iterator is advanced only on demand (once per element delivered plus once to discover
